@@ -20,6 +20,38 @@ COQ_OP = {"plain": "OpPlain", "bool": "OpBool", "star": "OpStar", "plus": "OpPlu
 TREE_OP = {"plain": "plain", "optional": "bool", "zeroormore": "star", "oneormore": "plus"}
 LIST_MULTS = ("0..*", "1..*")
 CORPUS = os.path.join(core.VERIF, "corpus", "C02")
+# repetition separators: key -> (grammar text, the token sequences the separator can match; [] = it matches the empty string,
+# in which case Arpeggio puts no separator node into the parse tree)
+SEPS = {
+    "c": ("','", [[","]]),
+    "s": ("/;/", [[";"]]),
+    "oc": ("/,?/", [[","], []]),
+    "os": ("/;*/", [[], [";"], [";;"], [";", ";"]]),
+}
+
+
+def sep_key(x):
+    """Separator field of a body node: False/None = none, True = ',' (older corpus files), else a key of SEPS."""
+    if not x:
+        return None
+    return "c" if x is True else x
+
+
+def sep_text(x):
+    k = sep_key(x)
+    return "[%s]" % SEPS[k][0] if k else ""
+
+
+def sep_tokens(x, r):
+    k = sep_key(x)
+    return list(r.choice(SEPS[k][1])) if k else []
+
+
+def gen_sep(r, p):
+    if not r.chance(p):
+        return False
+    return r.weighted([("c", 2), ("s", 1), ("oc", 4), ("os", 3)])
+
 
 
 # ------------------------------------------------------------------ bodies
@@ -34,7 +66,7 @@ def gen_body(r, depth, nattr, allow_bool):
         ops = [("plain", 12), ("star", 2), ("plus", 2)] + ([("bool", 3)] if allow_bool else [])
         op = r.weighted(ops)
         typ = "KW" if op == "bool" else r.weighted([("INT", 3), ("STRING", 1)])
-        sep = op in ("star", "plus") and r.chance(0.3)
+        sep = gen_sep(r, 0.5) if op in ("star", "plus") else False
         return ["asg", r.below(nattr), op, typ, sep]
     if k == "tok":
         return ["tok", "k%d" % r.below(3)]
@@ -52,7 +84,7 @@ def gen_body(r, depth, nattr, allow_bool):
     if nullable(x):
         # Arpeggio can loop forever on a repetition whose operand matches the empty string (not this property's concern)
         x = ["seq", [["tok", "k2"], x]]
-    return [k, x, r.chance(0.2)]
+    return [k, x, gen_sep(r, 0.3)]
 
 
 def nullable(b):
@@ -113,13 +145,13 @@ def p_elem(b):
         return "Kw"
     if k == "asg":
         rhs = {"INT": "INT", "STRING": "STRING", "KW": "'t%d'" % b[1]}[b[3]]
-        return "%s%s%s%s" % (ATTRS[b[1]], OPS[b[2]], rhs, "[',']" if b[4] else "")
+        return "%s%s%s%s" % (ATTRS[b[1]], OPS[b[2]], rhs, sep_text(b[4]))
     if k in ("seq", "alt"):
         return "(" + p_inner(b) + ")"
     if k == "opt":
         return "(" + p_inner(b[1]) + ")?"
     if k in ("star", "plus"):
-        return "(" + p_inner(b[1]) + ")" + ("*" if k == "star" else "+") + ("[',']" if b[2] else "")
+        return "(" + p_inner(b[1]) + ")" + ("*" if k == "star" else "+") + sep_text(b[2])
     if k == "unord":
         if b[2] == "seq":
             return "(" + " ".join(p_elem(x) for x in b[1]) + ")#"
@@ -239,8 +271,8 @@ def derive(b, r, v):
         n = r.range(1, 3) if b[2] == "plus" else r.range(0, 3)
         out = []
         for i in range(n):
-            if i and b[4]:
-                out.append(",")
+            if i:
+                out += sep_tokens(b[4], r)
             out.append(v.next(b[3]))
         return out
     if k == "seq":
@@ -253,8 +285,8 @@ def derive(b, r, v):
         n = r.range(1, 3) if k == "plus" else r.range(0, 2)
         out = []
         for i in range(n):
-            if i and b[2]:
-                out.append(",")
+            if i:
+                out += sep_tokens(b[2], r)
             out += derive(b[1], r, v)
         return out
     if k == "unord":
@@ -276,7 +308,7 @@ def mutate(toks, r):
         j = r.below(len(toks))
         toks[i], toks[j] = toks[j], toks[i]
     else:
-        toks.insert(i, r.choice(["0", "7", "''", "k0", "t0", "kw"]))
+        toks.insert(i, r.choice(["0", "7", "''", "k0", "t0", "kw", ",", ";"]))
     return toks
 
 
@@ -319,6 +351,12 @@ def builtin_corpus():
         mk_case(["seq", [A(0), ["star", A(1), True]]], ["1", "1 2 , 3"]),
         mk_case(["seq", [A(0, "star", "INT", True), A(0)]], ["1 , 2 3"]),
         mk_case(["seq", [["alt", [A(0, "bool", "KW"), ["tok", "k0"]]], A(1)]], ["t0 1", "k0 0"]),
+        # separators that can match the empty string leave no node in the parse tree
+        mk_case(["seq", [["tok", "k0"], A(0, "plus", "INT", "oc")]], ["k0 1, 2, 3, 4", "k0 1 2 3 4", "k0 1 2, 3 , 4 5", "k0 0 0, 7"]),
+        mk_case(["seq", [A(0), ["star", ["seq", [["tok", "k1"], A(0, "plus", "INT", "oc")]], False], ["opt", A(0, "star", "INT", "c")]]],
+                ["1 k1 2 3", "1 k1 2, 3 4 k1 5 6, 7 8, 9", "0 k1 0 0 0"]),
+        mk_case(["seq", [A(0, "star", "STRING", "os"), ["tok", "k2"]]], ["'p' 'q' ; 'r' ;; 's' 't' k2", "k2", "'' ; 'x' k2"]),
+        mk_case(["seq", [A(0, "plus", "INT", "c"), A(1, "plus", "INT", "s")]], ["1 , 2 , 3 4 ; 5 ; 6"]),
     ]
     if os.path.isdir(CORPUS):
         for f in sorted(os.listdir(CORPUS)):
@@ -374,7 +412,7 @@ def uncanon(s):
 
 def coq_trace(tr):
     evs = []
-    for attr, op, vals in tr:
+    for attr, op, vals, *_ in tr:
         evs.append("(Ev %d %s [%s])" % (ATTRS.index(attr), COQ_OP[TREE_OP[op]], "; ".join(coq_sval(v) for v in vals)))
     return "[" + "; ".join(evs) + "]"
 
@@ -461,7 +499,7 @@ def oracle(c, o):
             bad.append(("input %r accepted but no parse tree was seen" % inp, []))
             continue
         # every value token of the input is matched by exactly one assignment, in input order
-        flat = [v for _, op, vs in tr for v in vs]
+        flat = [v for _, op, vs, *_ in tr for v in vs]
         toks = []
         for t in inp.split():
             if t[0].isdigit():
@@ -472,7 +510,7 @@ def oracle(c, o):
             bad.append(("input %r: assignments matched %r, the input's value tokens are %r" % (inp, flat, toks), tags))
         for a in case_attrs(c):
             name = ATTRS[a]
-            vals = [v for at, op, vs in tr if at == name for v in (["T"] if op == "optional" else vs)]
+            vals = [v for at, op, vs, *_ in tr if at == name for v in (["T"] if op == "optional" else vs)]
             got = run["vals"][name]
             m = mult[name]
             if maxcount(b, a) >= 2 or m in LIST_MULTS:
@@ -563,12 +601,16 @@ def run_cases(chk, cases, tag, shard=120):
             chk.stat("input " + ("accepted" if run["ok"] else "rejected:" + str(run["err"][1] or run["err"][0])))
             if run["ok"] and run["trace"]:
                 first = {}
-                for at, op, vs in run["trace"]:
+                for at, op, vs, *_ in run["trace"]:
                     for v in (["T"] if op == "optional" else vs):
                         first.setdefault(at, v)
+                for ev in run["trace"]:
+                    if len(ev) > 4 and ev[4] and len(ev[2]) >= 2:
+                        nsep = len([1 for k, _ in ev[3] if k == "s"])
+                        chk.stat("list assignment with separator: " + ("all separators present" if nsep == len(ev[2]) - 1 else "some separator matched empty (no node)"))
                 if any(falsy(v) for v in first.values()):
                     chk.stat("accepted input whose first value of some attribute is falsy")
-                if any(len([1 for at, _, _ in run["trace"] if at == n]) >= 2 for n in first):
+                if any(len([1 for at, *_ in run["trace"] if at == n]) >= 2 for n in first):
                     chk.stat("accepted input with >=2 assignment events for one attribute")
         if o["gerr"] is not None and o["gerr"][0] == "Timeout":
             chk.stat("grammar compile timed out (skipped)")
@@ -634,7 +676,7 @@ def run(chk):
         failures += f2
         disagreements += d2
     chk.cov["rule"] = ("one-rule grammars whose body is a random AST (depth <= 3) of sequence, ordered choice, optional, * / + repetition (with and "
-                       "without separator) and unordered group (both spellings) over keywords, a rule reference and assignments to 1-3 attributes "
+                       "without separator; separators: ',' /;/ and the nullable /,?/ /;*/, inputs include and omit them) and unordered group (both spellings) over keywords, a rule reference and assignments to 1-3 attributes "
                        "with = ?= *= += (INT / STRING / keyword right-hand sides), auto_init_attributes on/off; per grammar 3-4 inputs derived from "
                        "the body (values distinct, 0 and '' occurring as first values) plus 2 token-level mutations; the multiplicities, the "
                        "assignment events of the real parse tree, the attribute values or the error are compared with Model/Mult.v; "
